@@ -176,8 +176,8 @@ Section Det.
   (* exactness of the hints, as language facts about the nondeterministic view:
      for every state and every guarded test y on a kind k, with T = t_tgt y:
        E1  a word accepted from T makes y's look-ahead say yes;
-       E2  a word accepted from the target of any *later* test of the state that also answers k
-           makes y's look-ahead not say yes. *)
+       E2  a word accepted from any target the nondeterministic view offers for k after y (the later
+           tests answering k, up to the first unguarded one) makes y's look-ahead not say yes. *)
   Definition exact_at (tests : list test) : Prop :=
     forall pre y post, tests = pre ++ y :: post ->
       match t_guard y with
@@ -185,8 +185,8 @@ Section Det.
       | Some hn =>
         exists h, flook hn = Some h /\ la_eof_free h = true /\
           (forall u, runN tbl [t_tgt y] u = true -> prun h PScan u = PYes) /\
-          (forall z, In z post -> forall k, ans (t_kind y) k = true -> ans (t_kind z) k = true ->
-             forall u, runN tbl [t_tgt z] u = true -> prun h PScan u <> PYes)
+          (forall k, ans (t_kind y) k = true -> forall s', In s' (targets_tests post k) ->
+             forall u, runN tbl [s'] u = true -> prun h PScan u <> PYes)
       end.
 
   Hypothesis Hexact : forall x, In x tbl -> exact_at (s_tests x).
@@ -211,16 +211,7 @@ Section Det.
     - cbn [orb]. destruct (pst_beq (prun h PScan u) PYes) eqn:Pk.
       + (* the look-ahead says yes: no later alternative accepts *)
         rewrite Ry. apply not_true_is_false. intros X. rewrite existsb_exists in X. destruct X as (s' & Hs' & Rs').
-        assert (Hz : exists z, In z ys /\ ans (t_kind z) k = true /\ t_tgt z = s').
-        { clear - Hs'. induction ys as [|z zs IHz]; [destruct Hs'|]. cbn [targets_tests] in Hs'. unfold kmatches in Hs'. fold (ans (t_kind z) k) in Hs'.
-          destruct (ans (t_kind z) k) eqn:Az.
-          - destruct (t_guard z).
-            + destruct Hs' as [<-|Hs']; [exists z; repeat split; auto; now left|].
-              destruct (IHz Hs') as (z' & A & B & C). exists z'. repeat split; auto. now right.
-            + destruct Hs' as [<-|[]]. exists z. repeat split; auto. now left.
-          - destruct (IHz Hs') as (z' & A & B & C). exists z'. repeat split; auto. now right. }
-        destruct Hz as (z & Hz & Az & <-).
-        apply (E2 z Hz k A Az _ Rs'). destruct (prun h PScan u); try discriminate. reflexivity.
+        apply (E2 k A s' Hs' _ Rs'). destruct (prun h PScan u); try discriminate. reflexivity.
       + apply IH. exact Exs.
   Qed.
 
@@ -236,3 +227,62 @@ Section Det.
       destruct (dsel (s_tests x) k w) as [s'|]; [apply IH | reflexivity].
   Qed.
 End Det.
+(* ---- exactness certificates ---- *)
+Section Cert.
+  Variable tbl : list st.
+  Variable las : list la.
+  Variable fuel : nat.
+
+  Definition cert1 (T : nat) (h : la) (good : pst -> bool) : bool :=
+    let R := pexplore tbl h fuel [([T], PScan)] [] in
+    ppmem ([T], PScan) R && pclosed tbl h good R.
+
+  Lemma cert1_sound T h good : cert1 T h good = true -> forall u, runN tbl [T] u = true -> good (prun h PScan u) = true.
+  Proof.
+    unfold cert1. generalize (pexplore tbl h fuel [([T], PScan)] []). intros R C u Hr. apply andb_prop in C as [M C].
+    unfold ppmem in M. rewrite existsb_exists in M. destruct M as (y & Hy & By). apply ppair_beq_eq in By. subst y.
+    exact (pclosed_sound tbl h good R C u [T] PScan Hy Hr).
+  Qed.
+
+  Fixpoint exact_tests (tests : list test) : bool :=
+    match tests with
+    | [] => true
+    | y :: post =>
+      match t_guard y with
+      | None => true
+      | Some hn =>
+        match flook las hn with
+        | None => false
+        | Some h =>
+          la_eof_free h && cert1 (t_tgt y) h (fun p => pst_beq p PYes)
+          && forallb (fun k => negb (ans (t_kind y) k)
+                               || forallb (fun s' => cert1 s' h (fun p => negb (pst_beq p PYes))) (targets_tests post k)) all_kinds
+        end
+      end && exact_tests post
+    end.
+
+  Lemma exact_tests_sound tests : exact_tests tests = true -> exact_at tbl las tests.
+  Proof.
+    induction tests as [|y0 ys IH]; intros C pre y post E; [destruct pre; discriminate|].
+    cbn [exact_tests] in C. apply andb_prop in C as [C0 Cs].
+    destruct pre as [|p pre]; cbn [app] in E; inversion E; subst.
+    - destruct (t_guard y) as [hn|]; [|exact I].
+      destruct (flook las hn) as [h|]; [|discriminate]. apply andb_prop in C0 as [C0 C2]. apply andb_prop in C0 as [Ce C1].
+      exists h. split; [reflexivity|]. split; [exact Ce|]. split.
+      + intros u Hr. pose proof (cert1_sound _ _ _ C1 u Hr) as G. destruct (prun h PScan u); try discriminate; reflexivity.
+      + intros k A1 s' Hs' u Hr. rewrite forallb_forall in C2. specialize (C2 k (all_kinds_complete k)).
+        rewrite A1 in C2. cbn [negb orb] in C2. rewrite forallb_forall in C2. specialize (C2 s' Hs').
+        pose proof (cert1_sound _ _ _ C2 u Hr) as G. intros X. rewrite X in G. discriminate.
+    - apply (IH Cs pre y post eq_refl).
+  Qed.
+End Cert.
+
+Definition cert_fuel := 60 * 50.
+Lemma table_exact : forallb (fun x => exact_tests Table.table Table.lookaheads cert_fuel (s_tests x)) Table.table = true.
+Proof. vm_compute. reflexivity. Qed.
+
+Theorem det_language : forall w, dacc Table.table Table.lookaheads Table.start_state w = runN Table.table [Table.start_state] (w ++ [KEOF]).
+Proof.
+  intros w. apply dacc_runN. intros x Hx. apply (exact_tests_sound Table.table Table.lookaheads cert_fuel).
+  pose proof table_exact as T. rewrite forallb_forall in T. exact (T x Hx).
+Qed.
